@@ -38,6 +38,20 @@ def floors(tier):
     return {"distinct_nontrivial": 300, "columns_compared": 5000, "pair_kinds": 6, "ops_checked": 2000}
 
 
+def same_class_pair(rng):
+    """two instances of one composite class with different parameters: their internal helper series must not share names"""
+    cls = rng.choice(["HMA", "KC", "MACD", "Supertrend", "STOCH", "TSI", "ADX", "RSI", "VWAP", "BBANDS", "StandardDeviation", "StandardDeviationThreshold", "ATR"])
+    if cls == "HMA":
+        a, b = rng.sample([4, 9, 16, 25], 2)
+        return {"cls": cls, "kw": {"period": a}}, {"cls": cls, "kw": {"period": b}}
+    if cls == "MACD":
+        return ({"cls": cls, "kw": {"fast_period": 3, "slow_period": 6, "signal_period": 3}}, {"cls": cls, "kw": {"fast_period": 4, "slow_period": 9, "signal_period": 4}})
+    if cls == "TSI":
+        return {"cls": cls, "kw": {"period": 4}}, {"cls": cls, "kw": {"period": 6}}  # names differ: TSI_4_2 / TSI_6_3
+    a, b = rng.sample([2, 3, 5, 7], 2)
+    return {"cls": cls, "kw": {"period": a}}, {"cls": cls, "kw": {"period": b}}
+
+
 def hostile_pair(rng):
     p = rng.choice([2, 3, 5])
     kinds = [
@@ -57,6 +71,7 @@ def hostile_pair(rng):
         ("stoch-sma", lambda: ({"cls": "STOCH", "kw": {"period": p, "smoothing_k": 3}}, {"cls": "SMA", "kw": {"period": 3, "input_value": "high"}})),
         ("tsi-ema", lambda: ({"cls": "TSI", "kw": {"period": 4}}, {"cls": "EMA", "kw": {"period": 4, "input_value": "open"}})),
         ("donchian-hl", lambda: ({"cls": "Donchian", "kw": {"period": p}}, {"cls": "HighestLowest", "kw": {"period": p}})),
+        ("same-class-composites", lambda: same_class_pair(rng)),
         ("amorph-amorph", lambda: ({"cls": "Amorph", "analysis": "highest", "kw": {"indicator": "high", "length": p}},
                                    {"cls": "Amorph", "analysis": "highestbar", "kw": {"indicator": "high", "length": p}})),
     ]
